@@ -1709,6 +1709,11 @@ def gen(repo):
     lines.append('Definition summary_bodies : list body := [' + '; '.join(names) + '].')
     lines.append('Definition bodies : list body := write_bodies ++ summary_bodies.')
     lines.append('Definition known_bad : list body := [' + '; '.join(known_bad) + '].')
+    lines.append('(* every registered method body with ALL of its parameters (self excluded): used to check that a call of a')
+    lines.append('   registered method from another body (optimizers, decorator) needs no assumption on its arguments *)')
+    lines.append('Definition registered_params : list (string * list name) := ['
+                 + '; '.join('(' + q(fn.qual) + ', [' + '; '.join(q(p_) for p_ in fn.all_params if p_ != 'self') + '])'
+                             for fn in registered if fn.qual not in KNOWN_FINDING_BODIES or not fn.Wreg) + '].')
     lines.append('(* LIBRARY TABLE (trusted): how NumPy / SciPy / stdlib callables are treated by the translator.')
     lines.append('   Anything not listed: a lower-case function returns a new array/scalar and writes none of its inputs unless')
     lines.append('   out=/output=/overwrite_* is given; a Capitalised callable is a constructor that may keep its arguments. *)')
